@@ -1072,7 +1072,15 @@ def clause_engine_commit_clear(R, F):
     nt = [c for c in fn.calls() if (c.method or "") == "notify_waiters" and not fn.is_cleanup(c.bb)]
     lbi = [c for c in wr if "last_block_info" in show(origin(fn, c.args[0]))]
     dbw = [c for c in wr if ".db" in show(origin(fn, c.args[0]))]
-    R.ob(bool(lbi) and bool(dbw) and bool(nt) and fn.dominates(lbi[0].bb, dbw[0].bb) and fn.dominates(nt[0].bb, dbw[0].bb), "DOM-order",
+    # the block record is reset no later than the caches are dropped (under the same or an earlier critical section), and the
+    # waiters are woken on every success path (before or after the drop: either way they re-check the count)
+    nested = False
+    for c in lbi:
+        for cid in ((c.func or {}).get("arg_cl") or []):
+            g = F.fns.get(cid)
+            if g is not None and any((x.method or "") in ("write_fn", "write_fn_unchecked") and ".db" in show(origin(gg, x.args[0])) for gg in [g] + F.descendants(g.id) for x in gg.calls()):
+                nested = True
+    R.ob(bool(lbi) and (nested or (bool(dbw) and fn.dominates(lbi[0].bb, dbw[0].bb))) and bool(nt) and must_pass_on_success(fn, [c.bb for c in nt]), "DOM-order",
          fn.where(), "DOM-order|clear_caches|reset<drop",
-         "clear_caches does not reset the unfinished-block info and notify waiters before dropping the caches",
+         "clear_caches does not reset the unfinished-block info no later than it drops the caches, or does not wake the waiters on every success path",
          sample={"rule": "DOM-order", "fn": "engine.clear_caches", "order": "LastBlockInfo reset, notify, db.clear_caches"})
